@@ -1,6 +1,7 @@
 package main
 
 import (
+	"encoding/hex"
 	"encoding/json"
 	"fmt"
 	"os"
@@ -72,7 +73,7 @@ func (e *Engine) specKeywords() []string {
 }
 
 func (e *Engine) finiteDomain(id string, tmp string) []fdResult {
-	if id != "C11" && id != "C13" {
+	if id != "C11" && id != "C13" && id != "C09" {
 		return nil
 	}
 	kws := e.specKeywords()
@@ -85,6 +86,8 @@ func (e *Engine) finiteDomain(id string, tmp string) []fdResult {
 import (
 	"fmt"
 	"testing"
+
+	"github.com/jsightapi/jsight-schema-core/bytes"
 )
 
 func TestGovcFiniteDomain(t *testing.T) {
@@ -104,6 +107,45 @@ func TestGovcFiniteDomain(t *testing.T) {
 		s := fmt.Sprintf("%03d", n)
 		e, err := NewDirectiveType(s)
 		fmt.Printf("RC %s %d %v\n", s, int(e), err == nil)
+	}
+	// BOUNDED: IsStartWithDirective (the scanner's "does this line of a Description text start a directive") on
+	// every keyword, every keyword followed by each byte, every proper prefix of a keyword followed by each byte,
+	// every 3-digit string alone and followed by ' ' / 'x', and every string of at most 2 bytes over a small alphabet.
+	seen := map[string]bool{}
+	line := func(w string) {
+		if seen[w] {
+			return
+		}
+		seen[w] = true
+		fmt.Printf("LS %x %v\n", w, IsStartWithDirective(bytes.NewBytes(w)))
+	}
+	for _, w := range []string{` + strings.Join(kwList, ", ") + `} {
+		line(w)
+		for c := 1; c < 256; c++ {
+			line(w + string([]byte{byte(c)}))
+			line(string([]byte{byte(c)}) + w)
+		}
+		for k := 1; k < len(w); k++ {
+			line(w[:k])
+			for c := 1; c < 256; c++ {
+				line(w[:k] + string([]byte{byte(c)}))
+				line(w[:k] + string([]byte{byte(c)}) + w[k:])
+			}
+		}
+	}
+	for n := 0; n < 1000; n++ {
+		s := fmt.Sprintf("%03d", n)
+		line(s)
+		line(s + " ")
+		line(s + "x")
+		line(s[:2])
+		line(s[:2] + "x")
+	}
+	for _, a := range []byte("aZ1 5\t/#@(") {
+		line(string([]byte{a}))
+		for _, b := range []byte("aZ1 5\t/#@(") {
+			line(string([]byte{a, b}))
+		}
 	}
 }
 `
@@ -129,6 +171,8 @@ func TestGovcFiniteDomain(t *testing.T) {
 	ctxBad, ctxN := []string{}, 0
 	kwBad, rcBad := []string{}, []string{}
 	kwN, rcN := 0, 0
+	lsN := 0
+	var lsBad []string
 	kwSeen := map[string]int{}
 	for _, l := range strings.Split(out, "\n") {
 		f := strings.Fields(l)
@@ -162,6 +206,27 @@ func TestGovcFiniteDomain(t *testing.T) {
 				kwBad = append(kwBad, fmt.Sprintf("keyword %q of the specification is unknown to NewDirectiveType", f[1]))
 			} else if ss[idx] != f[1] {
 				kwBad = append(kwBad, fmt.Sprintf("NewDirectiveType(%q) = %d whose name is %q", f[1], idx, ss[idx]))
+			}
+		case "LS":
+			if len(f) != 3 {
+				continue
+			}
+			lsN++
+			wb, _ := hex.DecodeString(f[1])
+			w := string(wb)
+			want := false
+			if len(w) >= 3 {
+				if w[0] >= '1' && w[0] <= '5' && w[1] >= '0' && w[1] <= '9' && w[2] >= '0' && w[2] <= '9' {
+					want = true
+				}
+				for _, k := range kws {
+					if strings.HasPrefix(w, k) {
+						want = true
+					}
+				}
+			}
+			if (f[2] == "true") != want && len(lsBad) < 12 {
+				lsBad = append(lsBad, fmt.Sprintf("IsStartWithDirective(%q) = %s, the statement says %v (a line of a Description text starts a directive iff it begins with a keyword or a response code)", w, f[2], want))
 			}
 		case "RC":
 			rcN++
@@ -198,12 +263,22 @@ func TestGovcFiniteDomain(t *testing.T) {
 		r.Props = []string{"C11"}
 		res = append(res, r)
 	}
+	if id == "C09" {
+		// INCLUDE (like every keyword) must end a Description text wherever the cut falls: same bounded check, under C09
+		r3 := mk("directive.IsStartWithDirective/bounded/line-start#1", "BOUNDED (keywords, their prefixes, one inserted/appended byte, 3-digit strings): a Description line starts a directive iff it begins with a keyword (INCLUDE included) or a response code", lsN, lsBad)
+		r3.Goal = strings.Replace(r3.Goal, "complete domain", "bounded sample, not a proof", 1)
+		r3.Props = []string{"C09"}
+		res = append(res, r3)
+	}
 	if id == "C13" {
 		r := mk("directive.NewDirectiveType/finite-domain/keywords#1", "the 30 keywords of the specification are exactly the names of the directive table", kwN, kwBad)
 		r.Props = []string{"C13"}
 		r2 := mk("directive.NewDirectiveType/finite-domain/response-codes#1", "three-digit strings are response codes iff [1-5][0-9][0-9]", rcN, rcBad)
 		r2.Props = []string{"C13"}
-		res = append(res, r, r2)
+		r3 := mk("directive.IsStartWithDirective/bounded/line-start#1", "BOUNDED (keywords, their prefixes, one inserted/appended byte, 3-digit strings): a Description line starts a directive iff it begins with a keyword or a response code", lsN, lsBad)
+		r3.Goal = strings.Replace(r3.Goal, "complete domain", "bounded sample, not a proof", 1)
+		r3.Props = []string{"C13"}
+		res = append(res, r, r2, r3)
 	}
 	return res
 }
